@@ -9,6 +9,82 @@ pub fn structured_seed(tag: u64) -> Scalar {
     Scalar::from(0x5EED_5EED_5EED_5EEDu64) + Scalar::from(1u64 << 32) * Scalar::from(1u64 << 32) * Scalar::from(1 + tag % 1000)
 }
 
+/// Parameter sets whose precomputed tables are large (bits x capacity >= 256): the ones an implementation would be
+/// tempted to cache or share process-wide
+pub const LARGE: [(usize, usize); 4] = [(64, 4), (32, 8), (16, 16), (64, 8)];
+
+/// Parameter objects a history keeps alive across its operations and across the probes that follow it
+static POOL: std::sync::Mutex<Vec<Option<Params>>> = std::sync::Mutex::new(Vec::new());
+
+pub fn pool_clear() {
+    POOL.lock().unwrap_or_else(|e| e.into_inner()).clear();
+}
+
+/// One step of a parameter-churn history: construct a large parameter set into a slot (dropping what was there),
+/// or drop a slot
+pub fn churn_op(op: usize) -> String {
+    let mut pool = POOL.lock().unwrap_or_else(|e| e.into_inner());
+    if pool.len() < 3 {
+        pool.resize_with(3, || None);
+    }
+    let slot = op % 3;
+    let (n, cap) = LARGE[(op / 3) % LARGE.len()];
+    match (op / 12) % 3 {
+        0 | 1 => {
+            let ext = 1 + (op / 36) % 6;
+            // construct first, then release the previous occupant (both alive for a moment)
+            let fresh = params_uncached(n, cap, ext);
+            pool[slot] = Some(fresh);
+            format!("construct {n}x{cap} parameters into slot {slot}")
+        },
+        _ => {
+            pool[slot] = None;
+            format!("drop slot {slot}")
+        },
+    }
+}
+
+/// The part of a probe that works on freshly constructed large parameter sets (aggregation 2)
+fn probe_large(pid: usize, rng: &mut rand_chacha::ChaCha12Rng, h: &mut sha3::Sha3_256) {
+    for (i, (n, cap)) in LARGE.iter().copied().enumerate() {
+        let ext = 1 + (pid + i) % 6;
+        let prm = params_uncached(n, cap, ext);
+        let m = [2usize, 1, 4][(pid + i) % 3].min(cap);
+        let case = Case::random(Cfg::new(n, m, cap, ext), VALUE_CLASSES[(pid + i) % 6], PROMISE_CLASSES[(pid + i) % 5], m == 1, rng);
+        let st = case.statement_with(&prm, &case.promises, case.seed);
+        let mut prng = FaultRng::new(RngKind::Healthy(7000 + pid as u64 + i as u64));
+        match RangeProof::prove_with_rng(&mut case.transcript(), &st, &case.witness(), &mut prng) {
+            Ok(p) => {
+                h.update(b"large-proof");
+                h.update(p.to_bytes());
+                match verify_one(&case.transcript(), &st, &p, VerifyAction::RecoverAndVerify) {
+                    Ok(mk) => {
+                        h.update(b"ok");
+                        if let Some(v) = mask_vec(&mk) {
+                            for x in v {
+                                h.update(x.as_bytes());
+                            }
+                        }
+                    },
+                    Err(e) => {
+                        h.update(b"err");
+                        h.update(e.to_string().as_bytes());
+                    },
+                }
+            },
+            Err(e) => {
+                h.update(b"large-prove-err");
+                h.update(e.to_string().as_bytes());
+            },
+        }
+        // the table itself, probed through its public operation
+        let len = 2 * n * cap;
+        let scal: Vec<Scalar> = (0..len).map(|j| if j % 97 == (pid + i) % 97 { Scalar::from((j + 2) as u64) } else { Scalar::ZERO }).collect();
+        use curve25519_dalek::traits::VartimePrecomputedMultiscalarMul as _;
+        h.update(enc(&prm.precomp().vartime_multiscalar_mul(scal.iter())));
+    }
+}
+
 /// Deterministic probe: proves and verifies fixed instances and digests every result bit
 pub fn probe(pid: usize, seed: u64) -> String {
     <P as Gx>::case_reset();
@@ -70,6 +146,9 @@ pub fn probe(pid: usize, seed: u64) -> String {
                 h.update(e.to_string().as_bytes());
             },
         }
+    }
+    if pid >= 100 {
+        probe_large(pid, &mut rng, &mut h);
     }
     // generator encodings
     let prm = params_uncached(cfgs[pid % cfgs.len()].n, 2, 1 + pid % 6);
@@ -197,7 +276,10 @@ pub fn histories(ctx: &Ctx, rep: &mut Report, virgin: &dyn Fn(usize) -> Option<S
         if !ctx.mine(id) {
             continue;
         }
-        let pid = hidx % probes;
+        // every fourth history churns large parameter sets (construct / keep alive / drop / construct again) and is
+        // followed by a probe that constructs each of them afresh
+        let churn = hidx % 4 == 3;
+        let pid = if churn { 100 + (hidx / 4) % 2 } else { hidx % probes };
         let base = match baseline.get(&pid) {
             Some(b) => b.clone(),
             None => {
@@ -211,17 +293,24 @@ pub fn histories(ctx: &Ctx, rep: &mut Report, virgin: &dyn Fn(usize) -> Option<S
             },
         };
         let mut rng = ctx.rng(&format!("c18-hist-{GROUP}"), id as u64);
-        let len = 3 + (rng.next_u32() % 10) as usize;
-        let mut names = vec![];
+        let len = if churn { 5 + (rng.next_u32() % 12) as usize } else { 3 + (rng.next_u32() % 10) as usize };
+        let mut names: Vec<String> = vec![];
+        pool_clear();
         // the history and the probe run on one thread (a thread-local left dirty by the history is seen by the probe)
         let seed = ctx.seed;
         let ops: Vec<usize> = (0..len).map(|_| (rng.next_u32() % 240) as usize).collect();
+        let rep_churn = std::sync::atomic::AtomicU64::new(0);
         let (after_same_thread, op_names) = std::thread::scope(|s| {
             s.spawn(|| {
                 let mut r2 = ctx.rng(&format!("c18-hist-ops-{GROUP}"), id as u64);
                 let mut nm = vec![];
-                for op in &ops {
-                    nm.push(history_op(*op, &mut r2));
+                for (oi, op) in ops.iter().enumerate() {
+                    if churn && oi % 5 != 4 {
+                        nm.push(churn_op(*op + 240 * (r2.next_u32() % 9) as usize));
+                        rep_churn.fetch_add(1, std::sync::atomic::Ordering::Relaxed);
+                    } else {
+                        nm.push(history_op(*op, &mut r2).to_string());
+                    }
                 }
                 (no_panic(|| probe(pid, seed)), nm)
             })
@@ -233,8 +322,14 @@ pub fn histories(ctx: &Ctx, rep: &mut Report, virgin: &dyn Fn(usize) -> Option<S
         rep.eval(&(GROUP, "history", hidx));
         rep.count("histories", 1);
         rep.count("history_operations", len as u64);
+        rep.count("parameter_churn_operations", rep_churn.load(std::sync::atomic::Ordering::Relaxed));
+        if churn {
+            rep.count("parameter_churn_histories", 1);
+        }
         for n in &names {
-            rep.count(&format!("op_{}", n.replace(' ', "_")), 1);
+            if !n.contains("slot") {
+                rep.count(&format!("op_{}", n.replace(' ', "_")), 1);
+            }
         }
         let replay = json!({"tier": if ctx.thorough() {"thorough"} else {"quick"}, "seed": ctx.seed, "leg": leg, "case": id, "descr": {"group": GROUP, "probe": pid, "history": names}});
         for (where_, got) in [("on the thread that ran the history", after_same_thread), ("on a fresh thread afterwards", after_fresh_thread)] {
